@@ -7,7 +7,10 @@
 //! of the use site (every statement / expression position x allocator class), the leaf of a nested brace initialiser that
 //! holds the use (every aggregate type of nesting depth <= 3 built from arrays / structs / uint2 x every leaf x local, for-init
 //! and second-declarator definitions), the shape of the call graph between the entry point and the function holding the use
-//! (all 64 acyclic graphs over three helpers) and the attribute lists of entry points.
+//! (all 64 acyclic graphs over three helpers), how each helper of the call graph is written (free function defined before its
+//! callers / prototype first and definition after the entry point / template instance / method of its own struct / function in a
+//! namespace: every assignment to the three helpers x every graph x every use site; and all helpers as methods of ONE struct in
+//! every declaration order, instance and static) and the attribute lists of entry points.
 //!
 //! Oracle `reflect`: the annotations are re-read from the EMITTED source (HLSL: the text is parsed back; MSL: the tree
 //! handed to the formatter, tied to the emitted bytes by formatting it again) and compared with the returned metadata as
@@ -16,7 +19,8 @@
 //! Signatures: `reflect|<field>|<declaration class>|<target>` with field in {name, group, slot, offset, type, count,
 //! bindless, is_used, missing-entry, extra-entry, inline-constants, entry-point, thread-group-size}. For is_used the class is
 //! the only way the binding is reached when that is not an ordinary statement (via-nested-initialiser: only inside the inner
-//! braces of a brace initialiser; via-default-argument; via-static-initialiser) instead of the declaration class.
+//! braces of a brace initialiser; via-default-argument; via-static-initialiser) instead of the declaration class. For type the
+//! class gets the suffix `-array` when the source declares an ARRAY of 64 bit integers that carries a descriptor slot.
 
 use crate::engine::*;
 use crate::json::{Json, obj};
@@ -623,6 +627,12 @@ pub struct SrcBinding {
     pub ty: String,
     /// Some(n) declared length (1 when not an array), None for an unsized array
     pub count: Option<u64>,
+    /// the declarator has an array suffix (also `[1]`)
+    pub is_array: bool,
+}
+
+fn declared_as_array(s: &SrcBinding) -> bool {
+    s.is_array
 }
 
 #[derive(Clone, Debug, Default)]
@@ -797,6 +807,7 @@ fn read_hlsl_defs(defs: &[ast::RootDefinition], consts: &BTreeMap<String, u64>, 
                                     annotation: format!("[[vk::offset({})]] member of {}", o, sd.name.node),
                                     ty: format!("inline:{}", type_leaf(&m.ty)),
                                     count: Some(declarator_array(&def.declarator, consts).map(|l| l.unwrap_or(0)).unwrap_or(1)),
+                                    is_array: declarator_array(&def.declarator, consts).is_some(),
                                 });
                             }
                         }
@@ -828,12 +839,12 @@ fn read_hlsl_defs(defs: &[ast::RootDefinition], consts: &BTreeMap<String, u64>, 
                         Some(Some(n)) => Some(n),
                         Some(None) => None,
                     };
-                    em.bindings.push(SrcBinding { name, group, loc, annotation, ty: format!("hlsl:{}", leaf), count });
+                    em.bindings.push(SrcBinding { name, group, loc, annotation, ty: format!("hlsl:{}", leaf), count, is_array: declarator_array(&def.declarator, consts).is_some() });
                 }
             }
             ast::RootDefinition::ConstantBuffer(cb) => {
                 if let Some((group, loc, annotation)) = annotation_of(&cb.attributes, &cb.location_annotations) {
-                    em.bindings.push(SrcBinding { name: cb.name.node.clone(), group, loc, annotation, ty: "hlsl:cbuffer".to_string(), count: Some(1) });
+                    em.bindings.push(SrcBinding { name: cb.name.node.clone(), group, loc, annotation, ty: "hlsl:cbuffer".to_string(), count: Some(1), is_array: false });
                 }
             }
             ast::RootDefinition::Function(f) => em.functions.push(function_info(f, consts)),
@@ -867,6 +878,7 @@ pub fn read_msl(module: &ast::Module) -> Emitted {
                             annotation: format!("[[id({})]] member of {}", idx.map(|v| v.to_string()).unwrap_or("?".into()), sd.name.node),
                             ty,
                             count,
+                            is_array: count != Some(1) || declarator_array(&def.declarator, &consts).is_some() || type_path(&m.ty) == "metal::array",
                         });
                     }
                 }
@@ -919,8 +931,10 @@ pub fn allowed_types(ty: &str) -> &'static [DT] {
         "hlsl:cbuffer" | "hlsl:ConstantBuffer" | "msl:constant-reference" => &[DT::ConstantBuffer],
         "hlsl:ByteAddressBuffer" | "msl:helper::ByteAddressBuffer" => &[DT::ByteBuffer, DT::BufferAddress],
         "hlsl:RWByteAddressBuffer" | "msl:helper::RWByteAddressBuffer" => &[DT::RwByteBuffer, DT::RwBufferAddress],
-        // a raw buffer address is a 64 bit integer in the emitted HLSL
-        "inline:uint64_t" | "hlsl:uint64_t" => &[DT::BufferAddress, DT::RwBufferAddress],
+        // a raw buffer address is a 64 bit integer member of InlineDescriptorN at a [[vk::offset]] ("Raw buffer address");
+        // a declaration that carries a descriptor slot (register / [[vk::binding]]) is a resource view ("or ByteBuffer if raw
+        // addresses are disabled"): a 64 bit integer there (`hlsl:uint64_t`) is describable by no descriptor type
+        "inline:uint64_t" => &[DT::BufferAddress, DT::RwBufferAddress],
         "hlsl:StructuredBuffer" | "msl:helper::StructuredBuffer" => &[DT::StructuredBuffer],
         "hlsl:RWStructuredBuffer" | "msl:helper::RWStructuredBuffer" => &[DT::RwStructuredBuffer],
         "hlsl:Buffer" | "msl:metal::texture_buffer" => &[DT::TexelBuffer],
@@ -1060,7 +1074,10 @@ pub fn check_pipeline(p: &rssl::CompiledPipeline, em: &Emitted, cfg: Cfg, pipeli
             }
             let allowed = allowed_types(&s.ty);
             if !allowed.contains(&b.descriptor_type) {
-                out.push(Finding { field: "type", class: class.clone(), detail: format!("`{}`: metadata descriptor type {:?} but the source declares it as {} (describable as {:?})", b.name, b.descriptor_type, s.ty, allowed) });
+                // an ARRAY declared as 64 bit integers that carries a descriptor slot is its own class (one root cause: arrays of
+                // buffer addresses are not moved into the inline constants)
+                let class = if s.ty == "hlsl:uint64_t" && declared_as_array(s) { format!("{}-array", class) } else { class.clone() };
+                out.push(Finding { field: "type", class, detail: format!("`{}`: metadata descriptor type {:?} but the source declares it as {} (describable as {:?})", b.name, b.descriptor_type, s.ty, allowed) });
             }
             match (s.count, b.descriptor_count) {
                 (None, None) => {}
@@ -1806,6 +1823,142 @@ pub fn call_graph_cases(quick: bool) -> Vec<SrcCase> {
     out
 }
 
+/// reachable[n]: function n (0 = the entry point, 1..3 = f1..f3) is called, directly or not, from the entry point in graph `g`
+fn graph_reachable(g: u32) -> [bool; 4] {
+    let edge = |b: u32| g >> b & 1 == 1;
+    let mut reachable = [true, edge(0), edge(1), edge(2)];
+    if reachable[1] && edge(3) {
+        reachable[2] = true;
+    }
+    if (reachable[1] && edge(4)) || (reachable[2] && edge(5)) {
+        reachable[3] = true;
+    }
+    reachable
+}
+
+/// how a helper of the call graph is written (decides when the front end registers the function relative to its callers)
+pub const FN_FORMS: [&str; 5] = ["free-defined-before-callers", "free-prototype-first-defined-after-entry", "template-instance", "method-of-own-struct", "function-in-own-namespace"];
+
+/// Call graphs x the form of every helper. Forms 0, 2, 3, 4 are defined callee first (f3, f2, f1) before the entry point;
+/// form 1 has its prototype at the top (f1, f2, f3: caller first) and its definition after the entry point (caller first).
+/// A template helper is instantiated by the call (`fN<uint>(0u)`), a method helper is called on a local of its struct.
+pub fn call_graph_form_cases(kinds: &[u8], forms: u32, cfgs_reachable: &[Cfg]) -> Vec<SrcCase> {
+    let mut out = Vec::new();
+    for k in kinds {
+        let d = Decl::plain(*k);
+        let x = if *k == K_CBUFFER { "r0_m;" } else { "r0;" };
+        for fa in 0..forms.pow(3) {
+            let form = [0, fa % forms, fa / forms % forms, fa / forms / forms];
+            if form[1..].iter().all(|f| *f == 0) {
+                continue; // the plain call-graph space
+            }
+            for g in 0..64u32 {
+                let edge = |b: u32| g >> b & 1 == 1;
+                let reachable = graph_reachable(g);
+                for site in 0..4usize {
+                    let call = |b: u32, n: usize| -> String {
+                        if !edge(b) {
+                            return String::new();
+                        }
+                        match form[n] {
+                            2 => format!(" f{}<uint>(0u);", n),
+                            3 => format!(" {{ H{} o{}; o{}.f{}(); }}", n, n, n, n),
+                            4 => format!(" N{}::f{}();", n, n),
+                            _ => format!(" f{}();", n),
+                        }
+                    };
+                    let body = |n: usize| -> String {
+                        let u = if n == site { x } else { "" };
+                        match n {
+                            3 => format!("{} ", u),
+                            2 => format!("{}{} ", u, call(5, 3)),
+                            1 => format!("{}{}{} ", u, call(3, 2), call(4, 3)),
+                            _ => format!("rc; {}{}{}{} ", u, call(0, 1), call(1, 2), call(2, 3)),
+                        }
+                    };
+                    let mut src = format!("struct S {{ float4 a; uint b; }};\n{}\nRWTexture2D<float4> rc;\n", decl_text(&d, "r0"));
+                    for n in 1..4 {
+                        if form[n] == 1 {
+                            src.push_str(&format!("void f{}();\n", n));
+                        }
+                    }
+                    for n in [3usize, 2, 1] {
+                        match form[n] {
+                            0 => src.push_str(&format!("void f{}() {{ {}}}\n", n, body(n))),
+                            2 => src.push_str(&format!("template<typename T> void f{}(T v) {{ {}}}\n", n, body(n))),
+                            3 => src.push_str(&format!("struct H{} {{ void f{}() {{ {}}} }};\n", n, n, body(n))),
+                            4 => src.push_str(&format!("namespace N{} {{ void f{}() {{ {}}} }}\n", n, n, body(n))),
+                            _ => {}
+                        }
+                    }
+                    src.push_str(&format!("[numthreads(8, 4, 2)]\nvoid CSMAIN() {{ {}}}\n", body(0)));
+                    for n in 1..4 {
+                        if form[n] == 1 {
+                            src.push_str(&format!("void f{}() {{ {}}}\n", n, body(n)));
+                        }
+                    }
+                    src.push_str("Pipeline PC { ComputeShader = CSMAIN; DefaultBindGroup = 1; }\n");
+                    let r = reachable[site];
+                    let (must, must_not) = if r { (vec!["rc".to_string(), "r0".to_string()], vec![]) } else { (vec!["rc".to_string()], vec!["r0".to_string()]) };
+                    out.push(SrcCase {
+                        label: format!("callforms graph {:06b} helpers f1/f2/f3 written as {}/{}/{}, use of kind {} in {}", g, FN_FORMS[form[1] as usize], FN_FORMS[form[2] as usize], FN_FORMS[form[3] as usize], k, ["entry", "f1", "f2", "f3"][site]),
+                        src,
+                        expect: Some(("PC".to_string(), must, must_not)),
+                        cfgs: if r { cfgs_reachable.to_vec() } else { vec![Cfg::Msl] },
+                    });
+                }
+            }
+        }
+    }
+    out
+}
+
+/// Call graphs whose helpers are all methods of ONE struct: every declaration order of the three methods x instance / static
+/// (a method may call a method declared later in the struct)
+pub fn call_graph_method_cases(kinds: &[u8], cfgs_reachable: &[Cfg]) -> Vec<SrcCase> {
+    const ORDERS: [[usize; 3]; 6] = [[3, 2, 1], [3, 1, 2], [2, 3, 1], [2, 1, 3], [1, 3, 2], [1, 2, 3]];
+    let mut out = Vec::new();
+    for k in kinds {
+        let d = Decl::plain(*k);
+        let x = if *k == K_CBUFFER { "r0_m;" } else { "r0;" };
+        for is_static in [false, true] {
+            for order in ORDERS {
+                for g in 0..64u32 {
+                    let edge = |b: u32| g >> b & 1 == 1;
+                    let reachable = graph_reachable(g);
+                    for site in 0..4usize {
+                        let u = |n: usize| if n == site { x } else { "" };
+                        let call = |b: u32, n: usize| if edge(b) { format!(" f{}();", n) } else { String::new() };
+                        // (the front end has no `H::f()` call form: a static method is called through an object as well)
+                        let ecall = |b: u32, n: usize| if edge(b) { format!(" h.f{}();", n) } else { String::new() };
+                        let body = |n: usize| -> String {
+                            match n {
+                                3 => format!("{} ", u(3)),
+                                2 => format!("{}{} ", u(2), call(5, 3)),
+                                _ => format!("{}{}{} ", u(1), call(3, 2), call(4, 3)),
+                            }
+                        };
+                        let mut src = format!("struct S {{ float4 a; uint b; }};\n{}\nRWTexture2D<float4> rc;\nstruct H {{\n", decl_text(&d, "r0"));
+                        for n in order {
+                            src.push_str(&format!("    {}void f{}() {{ {}}}\n", if is_static { "static " } else { "" }, n, body(n)));
+                        }
+                        src.push_str(&format!("}};\n[numthreads(8, 4, 2)]\nvoid CSMAIN() {{ rc; H h; {}{}{}{} }}\nPipeline PC {{ ComputeShader = CSMAIN; DefaultBindGroup = 1; }}\n", u(0), ecall(0, 1), ecall(1, 2), ecall(2, 3)));
+                        let r = reachable[site];
+                        let (must, must_not) = if r { (vec!["rc".to_string(), "r0".to_string()], vec![]) } else { (vec!["rc".to_string()], vec!["r0".to_string()]) };
+                        out.push(SrcCase {
+                            label: format!("callmethods graph {:06b} {}methods of one struct declared f{} f{} f{}, use of kind {} in {}", g, if is_static { "static " } else { "" }, order[0], order[1], order[2], k, ["entry", "f1", "f2", "f3"][site]),
+                            src,
+                            expect: Some(("PC".to_string(), must, must_not)),
+                            cfgs: if r { cfgs_reachable.to_vec() } else { vec![Cfg::Msl] },
+                        });
+                    }
+                }
+            }
+        }
+    }
+    out
+}
+
 const OTHER_ATTRIBUTES: [&str; 3] =["WaveSize(32)", "outputtopology(\"triangle\")", "maxvertexcount(3)"];
 
 /// attribute lists of length 0..2
@@ -1964,6 +2117,26 @@ pub fn run(ctx: &Ctx) -> i32 {
     let graphs = call_graph_cases(quick);
     rep.cov("call_graphs", Json::Arr(vec!["64 acyclic call graphs over entry, f1, f2, f3 x 4 use sites".into(), format!("cases this tier: {}", graphs.len()).into()]));
     run_src_space(ctx, &mut rep, "call_graphs", &graphs);
+    // ---- call graphs x how each helper is written (registration order of callee and caller): free function defined first,
+    // prototype first + definition after the entry point, template instance, method / static method of its own struct; and
+    // all helpers as methods of one struct in every declaration order
+    let form_kinds: Vec<u8> = if quick { vec![8] } else { vec![8, K_CBUFFER, 2] };
+    let form_cfgs: Vec<Cfg> = if quick { vec![Cfg::Msl] } else { ALL_CFGS.to_vec() };
+    let gforms = call_graph_form_cases(&form_kinds, FN_FORMS.len() as u32, &form_cfgs);
+    rep.cov(
+        "call_graph_helper_forms",
+        Json::Arr(vec![
+            format!("64 acyclic call graphs x 4 use sites x every assignment of a form to f1, f2, f3 from {:?} (all-free excluded: it is the call_graphs space) = {} assignments", FN_FORMS, FN_FORMS.len().pow(3) - 1).into(),
+            format!("resource kinds this tier: {:?}; cases this tier: {}", form_kinds, gforms.len()).into(),
+        ]),
+    );
+    run_src_space(ctx, &mut rep, "call_graph_helper_forms", &gforms);
+    let gmethods = call_graph_method_cases(&form_kinds, &form_cfgs);
+    rep.cov(
+        "call_graph_methods_of_one_struct",
+        Json::Arr(vec!["64 acyclic call graphs x 4 use sites x 6 declaration orders of the methods f1, f2, f3 in the struct x instance / static".into(), format!("cases this tier: {}", gmethods.len()).into()]),
+    );
+    run_src_space(ctx, &mut rep, "call_graph_methods_of_one_struct", &gmethods);
     let attrs = attribute_cases();
     rep.cov("entry_attribute_lists", Json::Arr(vec![format!("{} lists of 0-2 attributes from {:?} before and after [numthreads] (and spelled [NumThreads] for <= 2 others) x compute / mesh+pixel / task+mesh entries", attribute_lists().len(), OTHER_ATTRIBUTES).into()]));
     run_src_space(ctx, &mut rep, "entry_attribute_lists", &attrs);
@@ -2065,7 +2238,7 @@ pub fn run(ctx: &Ctx) -> i32 {
     rep.assumptions = vec![
         "an 'externally bound declaration in the source' is one that carries register(...), [[vk::binding]], [[vk::offset]] inside InlineDescriptorN, or [[id(n)]] inside ArgumentBufferN; unannotated globals ($Globals members, Metal static samplers) are outside the property".into(),
         "HLSL is re-read by parsing the emitted text with rssl's own parser; Metal is re-read from the tree handed to the formatter (hook H1), accepted only if formatting that tree reproduces the emitted bytes".into(),
-        "descriptor type is compared through a table written from the doc comments of ir/src/export.rs (declared type -> describable descriptor types; ByteAddressBuffer may be ByteBuffer or BufferAddress, metal::sampler either sampler type); unbounded arrays are compared for presence, group, slot, type and count == None only on targets that accept them".into(),
+        "descriptor type is compared through a table written from the doc comments of ir/src/export.rs (declared type -> describable descriptor types; ByteAddressBuffer may be ByteBuffer or BufferAddress, metal::sampler either sampler type; a uint64_t is a BufferAddress / RwBufferAddress only as a [[vk::offset]] member of InlineDescriptorN, a declaration carrying a descriptor slot must be declared with a resource type); unbounded arrays are compared for presence, group, slot, type and count == None only on targets that accept them".into(),
         "the emitted source has no bindless marker: is_bindless is compared with the [[rssl::bindless]] attribute of the input declaration of that name".into(),
         "Metal no-pipeline mode emits neither entry points nor argument buffers by design; there the entries are checked for uniqueness, bindless and is_used == false only. HLSL no-pipeline mode: is_used is not checked (no entry point defines reachability)".into(),
         "Metal states only the product of the thread-group size (max_total_threads_per_threadgroup); numthreads arguments are evaluated over literals, named constants with literal initialisers, + - * and casts, anything else is skipped and counted".into(),
@@ -2093,6 +2266,18 @@ pub fn replay(ctx: &Ctx, body: &str) -> i32 {
         }
     }
     let mut acc = Acc::default();
+    if std::env::var_os("C05_DUMP").is_some() {
+        // diagnostics only: what the compiler returns for this case
+        match guard(|| compile1(src, cfg, mode.clone())) {
+            Ok(Ok(ps)) => {
+                for p in &ps {
+                    println!("--- emitted source ---\n{}\n--- metadata ---\n{:#?}\n--- stages ---\n{:?}", String::from_utf8_lossy(&p.data), p.metadata, p.stages.iter().map(|s| format!("{:?} {} {:?}", s.stage, s.entry_point, s.thread_group_size)).collect::<Vec<_>>());
+                }
+            }
+            Ok(Err(e)) => println!("--- rejected: {}", e),
+            Err(pi) => println!("--- panic: {}", pi.signature()),
+        }
+    }
     match analyse_source(src) {
         Ok(info) => {
             if !check_case(src, cfg, &mode, &info, &mut BTreeMap::new(), &mut acc) {
